@@ -462,3 +462,12 @@ def unpickle_b64(text):
     import base64
     import pickle
     return pickle.loads(base64.b64decode(text))
+
+
+def status_key(k):
+    """key of SimpleCorrelator._segment_status_store ('ref/seq of the first segment') as the model's integer skey ref seq"""
+    k = str(k)
+    if '/' in k:
+        ref, seq = k.split('/')
+        return int(ref) + 65536 * (int(seq) + 1)
+    return int(k)
